@@ -247,6 +247,26 @@ def run(ctx):
             m.rel,
             cl.lineno,
         )
+    # an element-wise reset (`for k in X: self.F[k] = v`) covers every entry of F only when X is F itself: entries of F that are not keys of another
+    # container (resource names that jobs use but the [limits] config does not list) would keep their value
+    for lp in ast.walk(cl):
+        if not isinstance(lp, ast.For):
+            continue
+        for a in ast.walk(lp):
+            if isinstance(a, ast.Assign):
+                for t in a.targets:
+                    if isinstance(t, ast.Subscript) and isinstance(t.value, ast.Attribute) and src(t.value.value) == "self" and t.value.attr in mutated:
+                        f = t.value.attr
+                        it = src(lp.iter)
+                        same = it in (f"self.{f}", f"self.{f}.keys()", f"list(self.{f})", f"list(self.{f}.keys())", f"tuple(self.{f})")
+                        r6.check(
+                            same,
+                            f"{m.rel}:Scheduler.clear:{f}:elementwise-over-own-keys",
+                            f"Scheduler.clear() resets self.{f} entry by entry but iterates `{it}`: entries of self.{f} whose key is not in `{it}` keep their value (a resource name used by a job but "
+                            "absent from the [limits] config defaults to capacity 1 and is counted in limits_used; after an execution that stopped with such a unit held, the next run() waits for it for ever)",
+                            m.rel,
+                            lp.lineno,
+                        )
     # ---- C09.7 no hold-and-wait ------------------------------------------------------------------
     # Units are released in the done/reject handlers.  A synchronous task reaches them when its function returns (children run afterwards); an
     # async task reaches them only after everything it awaited has finished.  The entry point through which a *running* job starts a child
